@@ -244,7 +244,7 @@ def offenders(t, kind, anc, may=False):
             elif kind == "biallelic":
                 hit = (a > 1 or b > 1) if may else ((1 < a <= 253) or (1 < b <= 253))
             else:
-                hit = t["planes"] >= 3 and a != b and p == 0 and (may or (a <= 253 and b <= 253))
+                hit = t["planes"] >= 3 and a != b and p == 0 and a <= 253 and b <= 253  # a missing allele: no heterozygote
             if hit:
                 out.append((i, j, c))
     return out
@@ -756,7 +756,8 @@ LEVEL_NOTE = (
     "nonzero/delete as list operations; IEEE doubles = PrimFloat for MAF values (the theorems are stated for an "
     "arbitrary 'below threshold' predicate, the exact-rational reading min(f,1-f) is checked with a 1e-9 band on "
     "observed values). Missing = cell >= 254 (255 only in GenotypesAncestry, as in the code); where the property is "
-    "silent (254 in an ancestry object, missing values met by the biallelic/phase checks) the checker accepts "
-    "either behaviour. Data dtype (bool after check_biallelic) is not observed, values are."
+    "silent (254 in an ancestry object, missing values met by the biallelic check) the checker accepts "
+    "either behaviour; check_phase must raise iff a call with both alleles present (< 254), different and unphased "
+    "exists (a half-missing or haploid call is not a heterozygote). Data dtype (bool after check_biallelic) is not observed, values are."
 )
 TECHNIQUE = "Coq proof (list induction over nonzero/delete) + vm_compute-evaluated correspondence against the implementation"
